@@ -1177,7 +1177,16 @@ clause(H, B) :-
 % The clause will be inserted at the beginning of the module.
 asserta(Clause0) :-
     loader:strip_module(Clause0, Module, Clause),
+    '$must_be_acyclic_clause'(Clause, asserta/1),
     asserta_(Module, Clause).
+
+% A clause is compiled from its finite term representation: a cyclic
+% (rational tree) clause cannot be stored.
+'$must_be_acyclic_clause'(Clause, PI) :-
+    (  acyclic_term(Clause) ->
+       true
+    ;  throw(error(type_error(term, Clause), PI))
+    ).
 
 asserta_(Module, (Head :- Body)) :-
     !,
@@ -1193,6 +1202,7 @@ asserta_(Module, Fact) :-
 % The clase will be inserted at the end of the module.
 assertz(Clause0) :-
     loader:strip_module(Clause0, Module, Clause),
+    '$must_be_acyclic_clause'(Clause, assertz/1),
     assertz_(Module, Clause).
 
 assertz_(Module, (Head :- Body)) :-
